@@ -304,6 +304,10 @@ static void encode_imm_non_data_transfer(struct instr *instrc) {
 }
 
 static void encode_imm_operation(struct instr *instrc) {
+  // the accumulator short form has no memory operand: a memory destination
+  // whose base happens to be rax/eax keeps the ModRM form
+  if (instrc->mem_disp)
+    return;
   // special case for the al register
   if ((instrc->opd[0].reg == al && instrc->cons != NEG64BIT &&
        instrc->cons != MAX_UNSIGNED_32BIT) ||
